@@ -469,8 +469,8 @@ void run_extra(Ctx &c) {
 	case 0: {   // manual_box::initialize(args...) constructs T(args...) like std::optional::emplace
 		using VB = frg::manual_box<std::vector<int>>;
 		VB *box = c.make<VB>();
-		box->initialize((size_t)a, b);
-		std::optional<std::vector<int>> ref; ref.emplace((size_t)a, b);
+		box->initialize(a, b);            // T(args...): a elements of value b (not the two-element list {a, b})
+		std::optional<std::vector<int>> ref; ref.emplace(a, b);
 		VCHECK(c, "C17", **box == *ref, "manual_box<vector<int>>::initialize(%d, %d) holds %zu elements (first %d), std::optional::emplace holds %zu", a, b, (*box)->size(), (*box)->empty() ? -1 : (**box)[0], ref->size());
 		box->destruct();
 		box->construct_with([&] { return std::vector<int>((size_t)a, d); });
